@@ -90,6 +90,10 @@ type c07Bulk struct {
 	Order       string     `json:"order"` // sorted | reversed | stride
 	Stride      int        `json:"stride,omitempty"`
 	Subnets     []string   `json:"subnets,omitempty"` // complete '%' lines
+	// PairEvery > 1: every PairEvery-th '+' record that no heavy key covers starts
+	// a key with two records, so that (in stride order) the later batches of a
+	// batch-mode compilation find a large share of their keys already stored
+	PairEvery int `json:"pair_every,omitempty"`
 	SubnetsLast bool       `json:"subnets_last,omitempty"`
 }
 
@@ -119,6 +123,22 @@ func c07BulkText(b *c07Bulk) []byte {
 	lines := make([]string, 0, b.Lines)
 	heavy := append([]c07Heavy(nil), b.Heavy...)
 	sort.Slice(heavy, func(i, j int) bool { return heavy[i].Pos < heavy[j].Pos })
+	if b.PairEvery > 1 {
+		explicit := heavy
+		ei := 0
+		var all []c07Heavy
+		for p := 0; p+2 <= b.Lines; p += b.PairEvery {
+			for ei < len(explicit) && explicit[ei].Pos+explicit[ei].Count <= p {
+				ei++
+			}
+			if ei < len(explicit) && explicit[ei].Pos < p+2 {
+				continue // a heavy key covers or starts inside the pair
+			}
+			all = append(all, c07Heavy{Pos: p, Count: 2})
+		}
+		heavy = append(all, explicit...)
+		sort.Slice(heavy, func(i, j int) bool { return heavy[i].Pos < heavy[j].Pos })
+	}
 	k := 0
 	hi := 0
 	for len(lines) < b.Lines {
@@ -1095,6 +1115,7 @@ func c07GenBulk(t *rapid.T, huge bool) *c07Case {
 	if b.Order == "stride" {
 		b.Stride = rapid.SampledFrom([]int{7919, 104729, 15485863, 2, 30011}).Draw(t, "stride")
 	}
+	b.PairEvery = rapid.SampledFrom([]int{0, 2, 3, 10, 100}).Draw(t, "pair-every")
 	return c
 }
 
@@ -1114,6 +1135,9 @@ func c07BulkSettings(t *rapid.T, nBuilder, nBatch int) []c07Setting {
 		// bulk files use the larger sizes of the matrix plus sizes around the
 		// bucket size
 		s.BatchSize = rapid.SampledFrom(c07BulkBatchSizes()).Draw(t, fmt.Sprintf("s%d-bulk-bsize", i))
+		if i == 0 { // at least one compilation whose batches hold tens of thousands of keys
+			s.BatchSize = rapid.SampledFrom([]int{29999, 0, 9000, 17000}).Draw(t, "s0-bulk-bsize-large")
+		}
 		out = append(out, s)
 	}
 	return out
